@@ -103,4 +103,124 @@ theorem mergeOne_val {m h : BSeq} (hm : m.isFork = false) (hh : h.isFork = false
     · simp only [if_pos h2]
     · simp only [if_neg h2]
 
+/-- merging two faithful entries gives a faithful entry for the union -/
+theorem mergeOne_rep {S T : Nat → Prop} {m h : BSeq} (hm : Rep S m) (hh : Rep T h) :
+    Rep (fun n => S n ∨ T n) (mergeOne m h) := by
+  have hmf := hm.not_fork
+  have hhf := hh.not_fork
+  rcases hh with ⟨hTe, rfl⟩ | ⟨hT1, hT2, hTb, hT3⟩
+  · rw [mergeOne_zero_right]
+    rcases hm with ⟨hSe, rfl⟩ | ⟨a, b, c, d⟩
+    · exact Or.inl ⟨fun n hn => hn.elim (hSe n) (hTe n), rfl⟩
+    · exact Or.inr ⟨Or.inl a, Or.inl b, fun n hn => hn.elim (c n) (fun t => absurd t (hTe n)), d⟩
+  · have hb := hTb _ hT1
+    have hseq : h.seq ≠ 0 := by omega
+    rcases hm with ⟨hSe, rfl⟩ | ⟨hS1, hS2, hSb, hS3⟩
+    · have hz : mergeOne BSeq.zero h = h := by
+        rw [mergeOne_val hmf hhf hseq]
+        have h0 : BSeq.zero.seq = 0 := rfl
+        rw [h0, if_pos (by omega), if_pos (Or.inl rfl)]
+      rw [hz]
+      exact Or.inr ⟨Or.inr hT1, Or.inr hT2, fun n hn => hn.elim (fun t => absurd t (hSe n)) (hTb n), hT3⟩
+    · rw [mergeOne_val hmf hhf hseq]
+      right
+      have hbm := hSb _ hS1
+      have hm0 : ¬ m.seq = 0 := by omega
+      refine ⟨?_, ?_, ?_, ?_⟩
+      · show S (if m.seq < h.seq then h.seq else m.seq) ∨ T (if m.seq < h.seq then h.seq else m.seq)
+        by_cases h2 : m.seq < h.seq
+        · rw [if_pos h2]; exact Or.inr hT1
+        · rw [if_neg h2]; exact Or.inl hS1
+      · show S (if m.seq = 0 ∨ m.minSeq > h.minSeq then h.minSeq else m.minSeq) ∨
+             T (if m.seq = 0 ∨ m.minSeq > h.minSeq then h.minSeq else m.minSeq)
+        by_cases h1 : m.seq = 0 ∨ m.minSeq > h.minSeq
+        · rw [if_pos h1]; exact Or.inr hT2
+        · rw [if_neg h1]; exact Or.inl hS2
+      · intro n hn
+        show (if m.seq = 0 ∨ m.minSeq > h.minSeq then h.minSeq else m.minSeq) ≤ n ∧
+             n ≤ (if m.seq < h.seq then h.seq else m.seq)
+        have hn' : (m.minSeq ≤ n ∧ n ≤ m.seq) ∨ (h.minSeq ≤ n ∧ n ≤ h.seq) :=
+          hn.elim (fun t => Or.inl (hSb n t)) (fun t => Or.inr (hTb n t))
+        by_cases h1 : m.seq = 0 ∨ m.minSeq > h.minSeq <;> by_cases h2 : m.seq < h.seq
+        · rw [if_pos h1, if_pos h2]; omega
+        · rw [if_pos h1, if_neg h2]; omega
+        · rw [if_neg h1, if_pos h2]; omega
+        · rw [if_neg h1, if_neg h2]; omega
+      · show 1 ≤ (if m.seq = 0 ∨ m.minSeq > h.minSeq then h.minSeq else m.minSeq)
+        by_cases h1 : m.seq = 0 ∨ m.minSeq > h.minSeq
+        · rw [if_pos h1]; exact hT3
+        · rw [if_neg h1]; exact hS3
+
+/-! ### the fold of `collectFrom` over the parents -/
+
+theorem foldCollect_apply (x : Nat → HBV) (num : Nat) (ps : List Nat) (v : HBV) (b : Nat) :
+    (ps.foldl (fun v p => collectFrom v (x p) num) v).get b =
+      if b < num then ps.foldl (fun m p => mergeOne m ((x p).get b)) (v.get b) else v.get b := by
+  induction ps generalizing v with
+  | nil => simp
+  | cons p ps ih =>
+    simp only [List.foldl_cons]
+    rw [ih, collectFrom_apply]
+    by_cases hb : b < num
+    · rw [if_pos hb, if_pos hb, if_pos hb]
+    · rw [if_neg hb, if_neg hb, if_neg hb]
+
+/-- the marker is absorbing for the entry-wise fold -/
+theorem foldMerge_fork_init (y : Nat → BSeq) (ps : List Nat) (m : BSeq) (hm : m.isFork = true) :
+    (ps.foldl (fun m p => mergeOne m (y p)) m).isFork = true := by
+  induction ps generalizing m with
+  | nil => exact hm
+  | cons p ps ih =>
+    simp only [List.foldl_cons]
+    apply ih
+    rw [(isFork_iff m).1 hm]; exact mergeOne_fork_left _
+
+theorem foldMerge_fork (y : Nat → BSeq) (ps : List Nat) (m : BSeq)
+    (hex : ∃ p, p ∈ ps ∧ (y p).isFork = true) :
+    (ps.foldl (fun m p => mergeOne m (y p)) m).isFork = true := by
+  induction ps generalizing m with
+  | nil => obtain ⟨p, hp, _⟩ := hex; simp at hp
+  | cons q ps ih =>
+    simp only [List.foldl_cons]
+    obtain ⟨p, hp, hf⟩ := hex
+    rcases List.mem_cons.1 hp with rfl | hp'
+    · apply foldMerge_fork_init
+      rw [(isFork_iff _).1 hf]; exact mergeOne_fork_right _
+    · exact ih _ ⟨p, hp', hf⟩
+
+theorem foldMerge_rep (y : Nat → BSeq) (T : Nat → Nat → Prop) (ps : List Nat)
+    (hT : ∀ p, p ∈ ps → Rep (T p) (y p)) {S : Nat → Prop} {m : BSeq} (hm : Rep S m) :
+    Rep (fun n => S n ∨ ∃ p, p ∈ ps ∧ T p n) (ps.foldl (fun m p => mergeOne m (y p)) m) := by
+  induction ps generalizing S m with
+  | nil => exact hm.congr (by intro n; simp)
+  | cons q ps ih =>
+    simp only [List.foldl_cons]
+    have h1 := mergeOne_rep hm (hT q (by simp))
+    have h2 := ih (fun p hp => hT p (List.mem_cons_of_mem _ hp)) h1
+    refine h2.congr ?_
+    intro n
+    constructor
+    · rintro ((hs | ht) | ⟨p, hp, hpn⟩)
+      · exact Or.inl hs
+      · exact Or.inr ⟨q, by simp, ht⟩
+      · exact Or.inr ⟨p, List.mem_cons_of_mem _ hp, hpn⟩
+    · rintro (hs | ⟨p, hp, hpn⟩)
+      · exact Or.inl (Or.inl hs)
+      · rcases List.mem_cons.1 hp with rfl | hp'
+        · exact Or.inl (Or.inr hpn)
+        · exact Or.inr ⟨p, hp', hpn⟩
+
+/-- an unforked fold result means no input was forked -/
+theorem foldMerge_not_fork (y : Nat → BSeq) (ps : List Nat) (m : BSeq)
+    (h : (ps.foldl (fun m p => mergeOne m (y p)) m).isFork = false) :
+    m.isFork = false ∧ ∀ p, p ∈ ps → (y p).isFork = false := by
+  constructor
+  · cases hm : m.isFork with
+    | false => rfl
+    | true => rw [foldMerge_fork_init y ps m hm] at h; exact absurd h (by decide)
+  · intro p hp
+    cases hf : (y p).isFork with
+    | false => rfl
+    | true => rw [foldMerge_fork y ps m ⟨p, hp, hf⟩] at h; exact absurd h (by decide)
+
 end VecProofs
